@@ -76,7 +76,7 @@ CLAIMED = {
                      '(points, derivatives scaled by a^-k, insertion, sampling grids, tessellation), for GEOMDL_CACHE_SIZE in {unset,1,16,1024} and for num_procs in {1,2,4}.',
                 note=_B_NOTE + ' Schedules of worker processes are NOT explored: the claim rests on the order-preserving contract of multiprocessing.Pool.map (A4); real pools are run once natively as a sanity run.'),
     'C02': dict(category='other', technique='contracts on the derivative algorithms; per-shape exhaustive symbolic execution (symx) against the formal derivative of the spec position function',
-                text='Engine A, every degree / order / size: curve_deriv_cpts obeys the derivative-control-point recurrence; basis_function_ders is index-safe with positive divisors and the stated shape; CurveEvaluator.derivatives returns zero rows above the degree and row k = sum_j ders[k][j] * P[span-p+j]. Engine B: Curve.derivatives / Surface.derivatives (both evaluator families, rational too, orders up to degree+2, entries k+l <= order) equal the formal derivatives d^k/du^k d^l/dv^l of the '
+                text='Engine A, every degree / order / size: curve_deriv_cpts obeys the derivative-control-point recurrence; basis_function_ders is index-safe with positive divisors, has the stated shape and its row 0 is the Cox-de Boor basis function; CurveEvaluator.derivatives returns zero rows above the degree and row k = sum_j ders[k][j] * P[span-p+j]. Engine B: Curve.derivatives / Surface.derivatives (both evaluator families, rational too, orders up to degree+2, entries k+l <= order) equal the formal derivatives d^k/du^k d^l/dv^l of the '
                      'spec shape in QQ(knots, u, v, control points, weights); basis_function_ders(_one), derivative control points, hodograph constructors, tangent/normal (unit length and orthogonality modulo s*s = x).',
                 note=_B_NOTE + ' A4: math.sqrt by contract.'),
     'C11': dict(category='other', technique='contracts on fitting.*; per-shape exhaustive symbolic execution (symx) with the real LU solve in exact arithmetic',
@@ -89,7 +89,7 @@ CLAIMED = {
                      'control points; curve, surface and volume evaluators keep every evaluated point inside the bounds of the degree+1 (per direction) control points ACTIVE on its span (monotone ghost bounding sequences); evaluate_bounding_box contains every control point. Engine B: evaluated point == sum lambda_i * find_ctrlpts points with lambda >= 0 summing to 1, inside bbox, clamped ends, length >= chord.',
                 note=_B_NOTE + ' The upper bound length <= control polygon length is excluded (variation diminishing). A7: triangle inequality.'),
     'C16': dict(category='other', technique='SMT-discharged VCs (pyvc) for the vector/matrix helpers, the triangular solves and the Doolittle LU factorisation (every n); per-shape exhaustive symbolic execution (symx) on fully symbolic n x n matrices for LU / solve / inverse / determinant / pivot and for history independence',
-                text='Engine A, every n: _linalg.doolittle / lu_decomposition return unit lower triangular L and upper triangular U with L*U == A row by column (columns whose pivot vanishes excepted, as in the code), forward/backward substitution solve L y = b and U x = y. Engine B: fully symbolic matrices n = 1..3 and one- and two-parameter matrix pencils of size 4 and 5: L*U == A, A*x == b, A*inv == I, determinant == Leibniz, P a permutation with mp == P*m; diagonally dominant and collocation matrices: lu_solve returns; '
+                text='Engine A, every n: _linalg.doolittle / lu_decomposition return unit lower triangular L and upper triangular U with L*U == A row by column (columns whose pivot vanishes excepted, as in the code), forward/backward substitution solve L y = b and U x = y, matrix_multiply equals the row-by-column definition. Engine B: fully symbolic matrices n = 1..3 and one- and two-parameter matrix pencils of size 4 and 5: L*U == A, A*x == b, A*inv == I, determinant == Leibniz, P a permutation with mp == P*m; diagonally dominant and collocation matrices: lu_solve returns; '
                      'after any routine matrix_identity(k) is still the identity, arguments untouched, and every routine still satisfies its contract (history independence); helpers equal their definitions for all sizes (Engine A).',
                 note=_B_NOTE + ' "LU always succeeds on collocation matrices" only on the bounded instances (total positivity not proved).'),
     'C20': dict(category='other', technique='contracts on ray.intersect, is_left, wn_poly, convex_hull, voxelize, find_ctrlpts; per-shape exhaustive symbolic execution (symx) with independent spec predicates',
